@@ -353,14 +353,19 @@ pub fn run(prop: &str, tier: &str, replay: Option<&str>) -> i32 {
         }
         let n_all = d1_count(k.der.len());
         // RSA keys are large: quick tier covers every edit of the first 160 and last 64 bytes
-        let sec = Section::new(&format!("errors-der-d1/key{:02} {}", ki, k.label), &format!("every distance-1 mutant of the {}-byte private key DER ({} mutants{}) through every key loader and every other parser: Display, Debug and alternate Debug of each error", k.der.len(), n_all, if k.der.len() > 400 && !thorough { "; quick: positions in the first 160 and last 64 bytes" } else { "" })).with_deadline(if thorough { 900 } else { 30 });
+        let sec = Section::new(&format!("errors-der-d1/key{:02} {}", ki, k.label), &format!("every distance-1 mutant of the {}-byte private key DER ({} mutants{}) through every key loader and every other parser: Display, Debug and alternate Debug of each error", k.der.len(), n_all, if k.der.len() > 400 && !thorough { "; quick: positions in the first 160 and last 64 bytes" } else if k.der.len() > 1300 { "; keys of 3072 bits and more: positions in the first 420 and last 160 bytes" } else { "" })).with_deadline(if thorough { 900 } else { 30 });
         let der = &k.der;
         let keep = |label: &str| -> bool {
-            if der.len() <= 400 || thorough {
+            if der.len() <= 400 || (thorough && der.len() <= 1300) {
                 return true;
             }
             // parse the position out of the label
             let pos = label.split(['[', ']']).nth(1).and_then(|p| p.parse::<usize>().ok()).or_else(|| label.strip_prefix("truncate to ").and_then(|p| p.parse().ok())).unwrap_or(0);
+            // thorough, RSA keys of 3072 bits and more (each mutant costs a full RSA key validation): the structural
+            // head (version, algorithm, modulus start, exponents) and the tail
+            if thorough {
+                return pos < 420 || pos + 160 >= der.len();
+            }
             pos < 160 || pos + 64 >= der.len()
         };
         run::sweep_n(&sec, n_all, &|i| d1_mutant(der, i).1, &|i| {
